@@ -16,4 +16,4 @@ Extraction "wfmodel.ml"
   launch launch_roles role_of
   sched_wake sched_iter
   ref_step sql_store db_abs ref_run mem_run rstore0 mstore0 sops_ok rref_run mmem_run rstream0 mstream0 mops_ok single_topic tref_run tmem_run rtstore0 mtstore0
-  run_ops run_op w0 eval_beh ckind_code ufun_code find_step find_to resolve_pause unit_lag unit_topic is_consumer ec_graph tok_ok store_ok user_ok mon_C02 mon_C03 mon_C04 mon_C08 mon_C09 mon_C12 mon_C15 mon_C16 find_sched cron_next spec_period spec_phase conn_event_id scenario_digest list_stmt sql_select tsql_run tsql_run_dom.
+  run_ops run_op w0 eval_beh ckind_code ufun_code find_step find_to resolve_pause unit_lag unit_topic is_consumer ec_graph tok_ok store_ok user_ok mon_C02 mon_C03 mon_C04 mon_C08 mon_C09 mon_C12 mon_C15 mon_C15_obj scrub_obj mon_C16 find_sched cron_next spec_period spec_phase conn_event_id scenario_digest list_stmt sql_select tsql_run tsql_run_dom.
